@@ -352,6 +352,18 @@ theorem unlink_uses_the_local_id :
     PV.Generated.ChanLock.unlinkArgs ≠ [] ∧ ∀ a ∈ PV.Generated.ChanLock.unlinkArgs, a = "self.chanid" := by
   decide
 
+/-- **An entry leaves the channel map only through the close paths of the channel registered under it**: in class
+    Channel `transport._unlink_channel(…)` is called from `_handle_close` and `_unlink` only — never from a finaliser,
+    which runs for an object that may have been unlinked long ago while its id has since been given to another
+    channel — and every `self._channels.delete(…)` in transport.py is inside `_unlink_channel` or guarded by "this
+    open is still pending" (AST tables of channel.py / transport.py on this run).  These are the model's `delete`
+    and `peerFailure id true`; garbage collection of a dead object is not an action that touches the map. -/
+theorem entries_removed_only_by_close_paths :
+    PV.Generated.ChanLock.unlinkCallers ≠ [] ∧
+    (∀ c ∈ PV.Generated.ChanLock.unlinkCallers, c = "_handle_close" ∨ c = "_unlink") ∧
+    PV.Generated.C23.mapDeletes ≠ [] ∧ (∀ d ∈ PV.Generated.C23.mapDeletes, d.2 = true) := by
+  decide
+
 /-! ## open channels stay registered -/
 
 /-- every open Channel object is in the map under its id -/
